@@ -376,9 +376,12 @@ void GridFourier::getInterpolationWeights(const double x[], double weights[]) co
                 // in order to fetch reduced form of (N+1)*r/(2*N), the product r * (N+1) does not fit in int for level 10 and above
                 int offset = static_cast<int>((static_cast<long long>(r) * (num_oned_points[j]+1) / 2) % num_oned_points[j]);
 
-                if (std::abs(1.0 - (numerator_cache[j][0] * expcache[levels[j]][r]).real()) <  Maths::num_tol){
-                    // we're evaluating the basis functions at a node; take care of zero-divide
-                    fftprod *= num_oned_points[j];
+                double one_minus_cos = 1.0 - (numerator_cache[j][0] * expcache[levels[j]][r]).real(); // 1 - cos(theta) = theta^2 / 2, theta is the angle to node r
+                if (std::abs(one_minus_cos) <  Maths::num_tol){
+                    // we're evaluating the basis functions at (or right next to) a node; take care of zero-divide
+                    // the quotient is sin(N theta / 2) / sin(theta / 2) = N (1 - (N^2 - 1) theta^2 / 24 + ...), keep the second order term
+                    double dn = static_cast<double>(num_oned_points[j]);
+                    fftprod *= dn * (1.0 - (dn * dn - 1.0) * one_minus_cos / 12.0);
                 }else{
                     fftprod *= 2.0 * ( (1.0 - numerator_cache[j][levels[j]] * expcache[levels[j]][offset])
                                 / (1.0 - numerator_cache[j][0] * expcache[levels[j]][r]) ).real() - 1.0;
